@@ -61,8 +61,9 @@ Definition set_versioned_value (c : copy) (k : bytes) (v : vv) : copy * list eve
   | None => (mkCopy (c_hb c) (c_gc c) mx (kinsert k v (c_kvs c)), ev)
   end.
 
-(* state.rs:191-195: NodeState::new => heartbeat 0, empty, then the watermark *)
-Definition reset_node (gc : N) : copy := mkCopy 0 gc 0 [].
+(* state.rs:191-199: NodeState::new (empty), the observed heartbeat carried over (fix F-7), then the
+   watermark *)
+Definition reset_node (hb gc : N) : copy := mkCopy hb gc 0 [].
 
 (* loop body of state.rs:217-234 *)
 Definition apply_kv (now : Z) (current_max : N) (acc : copy * list event) (m : kvm)
@@ -80,7 +81,7 @@ Definition apply_delta (now : Z) (c : copy) (d : ndelta) : result (copy * dstatu
   match check_delta_status c d with
   | Reject => Ok (c, Reject, [])
   | st =>
-      let c0 := match st with ApplyAfterReset => reset_node (d_gc d) | _ => c end in
+      let c0 := match st with ApplyAfterReset => reset_node (c_hb c) (d_gc d) | _ => c end in
       let '(c1, evs) := fold_left (apply_kv now (c_max c0)) (d_kvs d) (c0, []) in
       if d_max d <? c_max c1 then Panic
       else Ok (mkCopy (c_hb c1) (c_gc c1) (d_max d) (c_kvs c1), st, evs)
